@@ -39,6 +39,23 @@ POS_MAX, NEG_MAX = 0x7FEFFFFFFFFFFFFF, 0xFFEFFFFFFFFFFFFF
 SURF = [("px", 1), ("py", 1), ("pz", 1), ("cxc", 1), ("cyc", 1), ("czc", 1), ("sc", 1), ("cx", 3),
         ("cy", 3), ("cz", 3), ("p", 4), ("s", 4), ("kx", 4), ("ky", 4), ("kz", 4), ("sq", 7),
         ("gq", 10)]
+UNREADABLE = [("inv", 6)]
+
+
+def load_tables():
+    """take surface types / tokens from the CURRENT source (same extractor as the translator),
+    so that a new surface type or token is generated too; constants above are the fallback"""
+    global SURF, UNREADABLE, LTRUE, LOR, LAND, LNOT
+    try:
+        from gen import orangeio as g
+        d = g.extract()
+        allsurf = list(zip(d["surf_names"], d["surf_sizes"], d["surf_readable"]))
+        SURF = [(n, k) for n, k, rd in allsurf if rd]
+        UNREADABLE = [(n, k) for n, k, rd in allsurf if not rd] or UNREADABLE
+        t = d["toks"]
+        LTRUE, LOR, LAND, LNOT = t["ltrue"], t["lor"], t["land"], t["lnot"]
+    except Exception:  # the translator error is reported by proof_side
+        pass
 
 
 # ------------------------------------------------------------------ CJ text
@@ -433,7 +450,8 @@ def depart(r, x):
         return "empty-logic-unreadable", x
     if k == 8:
         u = first_unit(x, r)
-        u[2].append(["inv", [g_fin(r) for _ in range(6)]])
+        n_, k_ = r.choice(UNREADABLE)
+        u[2].append([n_, [g_fin(r) for _ in range(k_)]])
         if u[6]:
             u[6].append(["inv", ""])
         return "involute-unreadable", x
@@ -474,6 +492,42 @@ def depart(r, x):
     v = nonbg_volume(first_unit(x, r, True), r)
     v[2] = r.choice([[W], [0, W - 6, LAND], [W - 5, 1]])
     return "precondition:non-postfix-logic-token", x
+
+
+# ---- the witnesses of the negative theorems in Props/C19.lean, replayed on the real code
+def witnesses():
+    d1, d2, dm1, z = dv(1.0), dv(2.0), dv(-1.0), D(0)
+    tolw = [dv(1e-6), dv(1e-5)]
+
+    def mk(vol=None, surfaces=None, bbox=None):
+        v = vol or [["v", ""], [], [LTRUE], INFBOX, OBZ0, 0, 2]
+        return [[["unit", ["u", ""], surfaces or [], [v], bbox or INFBOX, [], []]], tolw]
+
+    def vol(**kw):
+        v = {"label": ["v", ""], "faces": [], "logic": [LTRUE], "bbox": INFBOX, "obz": OBZ0,
+             "flags": 0, "zorder": 2}
+        v.update(kw)
+        return [v["label"], v["faces"], v["logic"], v["bbox"], v["obz"], v["flags"], v["zorder"]]
+
+    rect = lambda tr: [[["rect", ["arr", ""], [[z, d1], [z, d1], [z, d1]], [[0, tr]]]], tolw]
+    return [
+        ("obz-dropped", "obz_not_roundtrip", mk(vol(obz=[INFBOX, INFBOX, 0]))),
+        ("bbox-dblmax-to-inf", "bbox_dblmax_not_roundtrip",
+         mk(vol(bbox=[[z, z, z], [D(POS_MAX), d1, d1]]))),
+        ("rect-zero-translation", "rect_zero_translation_not_roundtrip", rect([z, z, z])),
+        ("rect-transformation-unwritable", "rect_transformation_not_writable",
+         rect([z, d1, z, dm1, z, z, z, z, d1, z, z, z])),
+        ("label-at-sign", "label_at_not_roundtrip", mk(vol(label=["a@b", ""]))),
+        ("unit-null-bbox-to-infinite", "unit_null_bbox_not_roundtrip", mk(bbox=NULLBOX)),
+        ("null-bbox-canonicalised", "null_bbox_canonicalised",
+         mk(vol(bbox=[[d2, z, z], [d1, d1, d1]]))),
+        ("background-volume-overwritten", "background_volume_overwritten", mk(vol(zorder=1))),
+        ("empty-logic-unreadable", "empty_logic_not_readable", mk(vol(logic=[], flags=2))),
+        ("involute-unreadable", "involute_not_readable",
+         mk(surfaces=[["inv", [z, z, d1, z, z, d1]]])),
+        ("nonfinite-double-unreadable", "nonfinite_text_not_readable",
+         mk(surfaces=[["px", [D(POS_INF)]]])),
+    ]
 
 
 # ---- JSON-level mutations for `dec` (legacy keys, missing keys, wrong types/sizes)
@@ -658,7 +712,14 @@ def run_both(exe, model, lines):
     _, om = vlib.run_lines([model], lines)
     keep = [i for i, o in enumerate(om) if o != "err ub"] if len(om) == len(lines) else \
         list(range(len(lines)))
-    _, oh_k = vlib.run_lines([exe], [lines[i] for i in keep])
+    for attempt in range(4):
+        _, oh_k = vlib.run_lines([exe], [lines[i] for i in keep])
+        if len(oh_k) == len(keep) and not any("error while loading shared" in o for o in oh_k[:1]):
+            break
+        # the shared build tree may be re-linking a library for another check: wait for it
+        vlib.time.sleep(5)
+        with vlib.Lock("celer"):
+            pass
     oh = ["err ub"] * len(lines)
     if len(oh_k) == len(keep):
         for i, o in zip(keep, oh_k):
@@ -682,6 +743,7 @@ def classify_loss(key, inp, out):
 
 def run(ctx):
     quick = ctx.quick()
+    load_tables()
     ps = common.proof_side(ctx, "C19")
     broken = list(ps["broken"])
     ctx.assumptions += [
@@ -723,7 +785,12 @@ def run(ctx):
         n_ub += nub
         evals += len(lines)
         for l, a, b in zip(lines, oh, om):
-            if a != b and not (a == "err unreachable" and b == "err ub"):
+            if a == "err unreachable":
+                # the harness refuses to call the real reader on JSON containing an "inv" surface
+                # (it would run into __builtin_unreachable): nothing to compare
+                n_ub += 1
+                continue
+            if a != b:
                 diverged.append({"what": what, "op": l[:4000], "impl": a[:2000], "model": b[:2000]})
             if not a.startswith("bad-op"):
                 distinct.add(l)
@@ -765,6 +832,20 @@ def run(ctx):
         compare(corpus, "corpus")
         tag("corpus", len(corpus))
 
+    # ---- 0b. the concrete witnesses of the negative theorems, on the real code
+    wit = witnesses()
+    for op in ("enc", "rt", "rtm"):
+        outs, _ = compare([op + " " + cj(x) for _, _, x in wit], "witness " + op)
+        tag("witness-" + op, len(wit))
+        if op == "rt":
+            for (k, thm, x), o in zip(wit, outs):
+                if classify_loss(k, cj(x), o):
+                    oracle_rt([cj(x)], [o], expect_key=k, label="theorem " + thm)
+                else:
+                    ctx.violation("witness-not-reproduced:" + k,
+                                  f"the real code does not show the loss proved in theorem {thm}",
+                                  {"ops": ["rt " + cj(x)], "actual": o[:2000]})
+
     # ---- 1. bundled inputs: real parse -> dec (both) -> enc/enct/rt/rtm (both) -> oracle, nav
     files = sorted(f for f in os.listdir(DATA) if f.endswith(".org.json"))
     _, loaded = vlib.run_lines([exe], ["load " + os.path.join(DATA, f) for f in files])
@@ -779,14 +860,21 @@ def run(ctx):
             if a.startswith("ok "):
                 bundled_S.append((f, a[3:]))
             elif a in ("err unreachable", "err ub"):
-                # a bundled input the real reader cannot load
+                # a bundled input the real reader cannot load; show what the release build does
+                try:
+                    rc, out = vlib.sh([exe], input="dec " + j + "\n", timeout=60,
+                                      env={"C19_CALL_UNREACHABLE": "1"})
+                    unsafe = f"exit code {rc} (-11 = SIGSEGV), output {out[:80]!r}"
+                except Exception as e:  # noqa
+                    unsafe = repr(e)
                 ctx.violation("involute-unreadable",
                               f"bundled {f}: from_json reaches visit_surface_type(SurfaceType::inv), "
                               "which has no case (CELER_ASSERT_UNREACHABLE = __builtin_unreachable "
                               "in the release build; the harness does not call it): involute "
                               "surfaces are written by to_json but cannot be read back",
                               {"ops": ["load " + os.path.join(DATA, f), "dec <that JSON>"],
-                               "model": om[files.index(f)], "theorem": "involute_not_readable"})
+                               "model": om[files.index(f)], "theorem": "involute_not_readable",
+                               "real_code_when_called_anyway (C19_CALL_UNREACHABLE=1)": unsafe})
             else:
                 ctx.violation("bundled-unreadable:" + f, f"bundled {f} is rejected by from_json: {a}",
                               {"ops": ["dec " + j[:3000]]})
@@ -795,7 +883,8 @@ def run(ctx):
             tag("bundled-" + op, len(bundled_S))
             if op in ("rt", "rtm"):
                 oracle_rt([s for _, s in bundled_S], outs, label="bundled/" + op)
-        _, navs = vlib.run_lines([exe], ["nav " + s for _, s in bundled_S])
+        _, navs = vlib.run_lines([exe], ["nav " + s for _, s in bundled_S],
+                                 env={"CELER_LOG": "critical", "CELER_LOG_LOCAL": "critical"})
         evals += len(navs)
         for (f, s), o in zip(bundled_S, navs):
             nav_res[f] = o
@@ -803,8 +892,36 @@ def run(ctx):
                 ctx.violation("navigation-differs:" + f, f"tracking differs after JSON round trip of {f}: {o}",
                               {"ops": ["nav " + s[:3000]]})
 
+        # navigation when the struct DOES change: NoTransformation -> Translation(0,0,0) in the
+        # rect arrays of the bundled inputs (comes back as NoTransformation; tracking must agree)
+        zt = []
+        for f, s_ in bundled_S:
+            x = parse_cj(s_)
+            n = 0
+            for u in x[0]:
+                if u[0] == "rect":
+                    for d_ in u[3]:
+                        if d_[1] == []:
+                            d_[1] = [D(0), D(0), D(0)]
+                            n += 1
+            if n:
+                zt.append((f, cj(x)))
+        if zt:
+            outs, _ = compare(["rt " + s_ for _, s_ in zt], "bundled zero-translation rt")
+            for (f, s_), o in zip(zt, outs):
+                oracle_rt([s_], [o], expect_key="rect-zero-translation", label="bundled " + f)
+            _, navs = vlib.run_lines([exe], ["nav " + s_ for _, s_ in zt],
+                                     env={"CELER_LOG": "critical", "CELER_LOG_LOCAL": "critical"})
+            evals += len(navs)
+            for (f, s_), o in zip(zt, navs):
+                nav_res[f + " (zero translations)"] = o
+                if not o.startswith("ok same"):
+                    ctx.violation("navigation-differs:" + f, "tracking differs after JSON round "
+                                  f"trip of {f} with zero translations in its rect arrays: {o}",
+                                  {"ops": ["nav " + s_[:3000]]})
+
     # ---- 2. random inputs inside Valid: enc, enct, rt, rtm on both sides; oracle on real rt
-    n_valid = 120 if quick else 1500
+    n_valid = 300 if quick else 10000
     valid = [cj(g_input(r)) for _ in range(n_valid)]
     enc_outs = None
     for op in ("enc", "enct", "rt", "rtm"):
@@ -816,7 +933,7 @@ def run(ctx):
             oracle_rt(valid, outs, label="valid/" + op)
 
     # ---- 3. single-feature departures from Valid: same ops; the loss must be the predicted one
-    n_dep = 150 if quick else 1500
+    n_dep = 300 if quick else 10000
     deps = []
     for _ in range(n_dep):
         k, x = depart(r, g_input(r))
@@ -830,7 +947,7 @@ def run(ctx):
                 oracle_rt([s], [o], expect_key=k, label="departure/rt")
 
     # ---- 4. dec on mutated JSON (legacy keys, missing keys, wrong shapes)
-    n_mut = 300 if quick else 4000
+    n_mut = 800 if quick else 25000
     base = [parse_cj(o[3:]) for o in (enc_outs or []) if o.startswith("ok ")]
     muts = []
     for i in range(n_mut if base else 0):
@@ -843,7 +960,7 @@ def run(ctx):
 
     # ---- 5. component ops
     comp = []
-    for _ in range(60 if quick else 1000):
+    for _ in range(100 if quick else 6000):
         comp.append("s2lab " + cj("".join(r.choice("ab@@ .") for _ in range(r.below(8)))))
         comp.append("lab2s " + cj([g_word(r, True), g_word(r, True)]))
         comp.append("logdec " + cj("".join(r.choice("0123456789  ~&|*") for _ in range(r.below(24)))))
@@ -895,8 +1012,8 @@ def run(ctx):
         known_class = k in texts
         ctx.violation(k, (texts.get(k) or f"round trip changed a Valid input ({label})")
                       + f" [first difference at {p}; {loss_seen[k]} inputs]",
-                      {"harness": "harness/orangeio.cc", "ops": ["rt " + s[:6000]],
-                       "expected": ("ok " + s)[:6000], "actual": o[:6000], "first_difference": p,
+                      {"harness": "harness/orangeio.cc", "ops": ["rt " + s],
+                       "expected": "ok " + s, "actual": o, "first_difference": p,
                        "contradicts": "decode_encode" if not known_class else "outside Valid: see "
                        "the *_not_roundtrip theorems in Props/C19.lean"})
     if broken and not ctx.violations:
